@@ -131,7 +131,9 @@ class FileResolver:
                     continue
                 if self._gitignored(resolved_current / filename, False, gitignore_specs):
                     continue
-                if tool_ignore and tool_ignore.match_file(filename):
+                # Tool ignore rules see the path relative to the walk root (a pattern without a
+                # slash still matches at any depth; anchored and multi-segment patterns need the path).
+                if tool_ignore and tool_ignore.match_file((rel_to_root / filename).as_posix()):
                     continue
                 yield filepath
 
